@@ -2054,6 +2054,32 @@ def get_tile_shape_choices(
     return choices_enumerated[:, [symbols_enumerated.index(s) for s in symbols]]
 
 
+def _constant_objectives_valid(objectives: list[Objective]) -> bool:
+    """Checks the max/min limits of objectives whose formulas have no free symbols."""
+    for objective in objectives:
+        if objective.formula.free_symbols:
+            continue
+        value = float(objective.formula)
+        if objective.max_value is not None:
+            if objective.inclusive:
+                valid = value <= objective.max_value
+            else:
+                valid = value < objective.max_value
+            if not valid:
+                return False
+        if (
+            objective.min_value is not None
+            and not objective.try_best_if_none_reaches_min
+        ):
+            if objective.inclusive:
+                valid = value >= objective.min_value
+            else:
+                valid = value > objective.min_value
+            if not valid:
+                return False
+    return True
+
+
 def makesymbol(name: str):
     # TODO: Do the solve() calls work with integer=True?
     return Symbol(name, positive=True, integer=True)
@@ -2494,6 +2520,13 @@ def _make_tile_shapes(job: "Job"):
         alt_objectives_first=alt_objectives_first,
     )
 
+    # A template without tile-shape symbols is a single mapping. It never enters the
+    # enumeration loop of get_tile_shape_choices, so its validity limits (memory
+    # capacity, fanout, loop bounds) have to be checked here.
+    constant_mapping_invalid = not symbols and not _constant_objectives_valid(
+        objectives
+    )
+
     try:
         compiled_df = compile_dict(symbols, symbolic_df)
         compiled_per_memory_usage_df = compile_dict(symbols, per_memory_usage_df)
@@ -2548,6 +2581,8 @@ def _make_tile_shapes(job: "Job"):
     except ValueError as e:
         df = pd.DataFrame(df, columns=df.keys(), index=[0])
     assert not df.isna().any().any()
+    if constant_mapping_invalid:
+        df = df.iloc[0:0]
 
     energy_cols = [c for c in df.columns if "energy" in c]
     if (df[energy_cols] < 0).any(axis=None):
